@@ -161,13 +161,13 @@ GOOD = {
     "count": [["4", "2"], ["5", "3"], ["0", "1"], ["3", "1"], ["6", "3"]],
     "cpls": [["1", "2", "2"], ["2", "2", "4"], ["2", "4", "2"], ["1", "1", "1"]],
     "parity": [["4"], ["5"], ["0"], ["1"], ["6"]],
-    "ptn": [["5"], ["13"], ["0"], ["26"]],
-    "ram": [["3", "3", "4"], ["2", "2", "3"], ["1", "2", "2"], ["3", "2", "5"]],
+    "ptn": [["4"], ["5"], ["13"], ["0"], ["26"]],            # ptn 4: variables without clauses
+    "ram": [["3", "3", "2"], ["3", "3", "4"], ["2", "2", "3"], ["1", "2", "2"], ["3", "2", "5"]],   # ram 3 3 2: one variable, no clause
     "rphp": [["3", "2", "2"], ["2", "3", "2"], ["0", "0", "0"], ["1", "1", "1"]],
     "php": [["3", "2"], ["2"], ["0", "3"], ["3", "0"], ["--functional", "3", "2"], ["3", "2", "--onto"],
             ["--functional", "--onto", "2", "2"], ["3", "2", "2"]],
     "op": [["3"], ["--total", "3"], ["--smart", "4"], ["--knuth2", "4"], ["--knuth3", "3"], ["--plant", "3"], ["0"], ["1"]],
-    "vdw": [["5", "2", "2"], ["4", "2", "3"], ["5", "2", "2", "2"], ["0", "1", "1"], ["4", "1", "2", "1"]],
+    "vdw": [["3", "4", "4"], ["5", "2", "2"], ["4", "2", "3"], ["5", "2", "2", "2"], ["0", "1", "1"], ["4", "1", "2", "1"]],
 }
 BAD = {
     "bphp": [["0", "2"], ["3"], ["3", "x"]], "cliquecoloring": [["-1", "2", "2"], ["3", "2"]],
@@ -202,7 +202,7 @@ def cases(ctx):
     if tier == "quick":
         fixed = [c for c in cand if c[0][2] is False and c[0][3] is False and c[0][4] is None and c[2] == GOOD[c[1]][0]]
         rest = [c for c in cand if c not in fixed]
-        cand = fixed + rng.sample(rest, min(len(rest), 40))
+        cand = fixed + rng.sample(rest, min(len(rest), 30))
     out = []
     for (tool, fmt, verbose, varnames, sd), name, argv in cand:
         info = {"tool": tool, "fmt": fmt, "verbose": verbose, "varnames": varnames, "seed": sd, "name": name,
